@@ -43,6 +43,12 @@ impl<'a> GeneratorState<'a> {
         pos: usize,
         high_byte: bool,
     ) -> Result<ExprType, Error> {
+        if let ExprType::Nothing = right {
+            // e.g. the result of a void function
+            return Err(self
+                .compiler_state
+                .syntax_error("No value to assign (void expression)", pos));
+        }
         match left {
             ExprType::X => match right {
                 ExprType::Immediate(i) => {
